@@ -4,6 +4,7 @@ Each entry: (keyword in the commit subject, property, what failed before the fix
 import json, subprocess, os
 ROOT = os.path.dirname(os.path.dirname(os.path.abspath(__file__)))
 M = [
+ ('object literal with a field of function', 'C02', '`fn f(a: int) -> int { a } fn main() { let v = new { a: f }; }`: compileExpr pre-filled the fields with value.ZeroValue(type), which panics `Invalid type: fn(a: int) -> int` for function, any and never typed field expressions (a host panic in the compiler)'),
  ('match without default arm whose arms all diverge', 'C02', '`fn f(n: int) { match n { 1 => { return; } }; println(n); } f(3)`: the analyzer typed the match `never` although no arm may match; the VM popped a result that was never pushed (index out of range [-1] in Core.pop), the optimizer dropped the statements behind the match'),
  ('object keys that are keywords are printed quoted', 'C19', '`let o = new { "fn": 1, "let": 2 };`: both printers wrote the keys bare (`fn: 1`), the printed program no longer parses (`Expected identifier, _, or string, found fn`); IsIdent only looked at the shape of the word'),
  ('dereferenced the missing value of a bare return', 'C20', 'any input with `return;` (e.g. `fn done(n: int) { if n > 1 { return; } }`): Transformer.stmtCanControlLoop passed the nil ReturnValue to exprCanControlLoop: nil pointer dereference for every seed'),
